@@ -372,14 +372,16 @@ class Stream(object):
         Returns:
             str: ``chunked``, ``length``, ``close``.
         '''
-        # Transfer coding names are case-insensitive (RFC 7230 section 4)
-        chunked_match = re.match(
-            r'chunked($|;)',
-            response.fields.get('Transfer-Encoding', ''),
-            re.IGNORECASE
-        )
+        # Transfer coding names are case-insensitive and may be followed by
+        # parameters (RFC 7230 section 4). The body is chunked if chunked
+        # is the final coding (section 3.3.3).
+        codings = [
+            coding.partition(';')[0].strip().lower()
+            for coding in
+            response.fields.get('Transfer-Encoding', '').split(',')
+        ]
 
-        if chunked_match:
+        if codings[-1] == 'chunked':
             return 'chunked'
         elif 'Content-Length' in response.fields:
             return 'length'
